@@ -84,7 +84,12 @@ def run(repo, cfg, pid, tier, seed, build):
             txt = open(os.path.join(repo, rel)).read()
             o["obligations"] += 1
             casts = [m.start() for m in re.finditer(r"cast_unchecked::<", txt)]
-            guards = [m.start() for m in re.finditer(r"if\s+TypeId::of::<Dq>\(\)\s*==\s*TypeId::of::<Ix1>\(\)\s*\{", txt)]
+            guards = [m.start() for m in re.finditer(r"if\s+TypeId::of::<(?:Dq>\(\)\s*==\s*TypeId::of::<Ix1|Ix1>\(\)\s*==\s*TypeId::of::<Dq)>\(\)\s*\{", txt)]
+            if casts and not guards:
+                # the scan recognises one spelling of the guard (either operand order); anything else is not decided here
+                # (the run-time hook in cast_unchecked, engine S, still checks every cast that is executed)
+                o["undecided"].append("anchor lost: no `if TypeId::of::<Dq>() == TypeId::of::<Ix1>() {` guard recognised in %s" % rel)
+                continue
             ok = bool(casts) and len(guards) == 1
             if ok:
                 # every cast lies inside the guarded block
